@@ -448,8 +448,69 @@ where
     run.add_class("nonce alphabet members x coin states checked for pairwise different outputs", cases);
 }
 
+/// "equal histories give equal outputs" with histories that are equal as values but were computed differently:
+/// seed elements re-derived through field arithmetic (-(0 - x), (x + 1) - 1, x * 1, x + (y + -y)) are == to the
+/// originals but may have another internal representation (the 62-bit field keeps lazily reduced values); the
+/// coin must not see the difference.
+fn representation_independence<H: CoinSpec>(run: &Arc<Run>)
+where
+    H::Digest: 'static,
+{
+    type F<H> = <H as crypto::Hasher>::Digest;
+    let _ = std::marker::PhantomData::<F<H>>;
+    let one = H::BaseField::ONE;
+    let zero = H::BaseField::ZERO;
+    let alts: Vec<(&str, Box<dyn Fn(H::BaseField) -> H::BaseField>)> = vec![
+        ("-(0 - x)", Box::new(move |x| -(zero - x))),
+        ("(x + 1) - 1", Box::new(move |x| (x + one) - one)),
+        ("x * 1", Box::new(move |x| x * one)),
+        ("x + (1 + -1)", Box::new(move |x| x + (one + (-one)))),
+        ("-(-x)", Box::new(|x| -(-x))),
+        ("0 - (0 - x)", Box::new(move |x| zero - (zero - x))),
+        ("(x - 1) + 1", Box::new(move |x| (x - one) + one)),
+        ("x - (1 + -1)", Box::new(move |x| x - (one + (-one)))),
+        ("(x + -1) + 1", Box::new(move |x| (x + (-one)) + one)),
+        ("(-x) * (-1)", Box::new(move |x| (-x) * (-one))),
+        ("x + (x + -x)", Box::new(|x| x + (x + (-x)))),
+    ];
+    let (mut cases, mut other_images) = (0u64, 0u64);
+    for seed in 1..4u8 {
+        let orig = H::seed(seed);
+        let observe = |s: &[H::BaseField]| -> Result<(Vec<u8>, u32, Vec<usize>), String> {
+            let mut coin = DefaultRandomCoin::<H>::new(s);
+            let lz = coin.check_leading_zeros(5);
+            let d = H::draw_real(&mut coin, 1)?;
+            let ints = coin.draw_integers(27, 256, 9).map_err(|e| format!("{:?}", e))?;
+            Ok((d, lz, ints))
+        };
+        let base = pan::catch(|| observe(&orig));
+        for (name, f) in alts.iter() {
+            let alt: Vec<H::BaseField> = orig.iter().map(|x| f(*x)).collect();
+            cases += 1;
+            if alt != orig {
+                run.add_violation(&format!("coin.{}.representation", H::NAME), cases, &format!("{}: field arithmetic does not return an equal element ({name})", H::NAME), json!({"seed": seed}));
+                continue;
+            }
+            if H::BaseField::elements_as_bytes(&alt) != H::BaseField::elements_as_bytes(&orig) {
+                other_images += 1;
+            }
+            let got = pan::catch(|| observe(&alt));
+            let same = match (&base, &got) {
+                (Ok(a), Ok(b)) => a == b,
+                _ => false,
+            };
+            if !same {
+                run.add_violation(&format!("coin.{}.representation", H::NAME), cases, &format!("{}: coins seeded with equal elements produce different outputs (the seed was re-derived as {name})", H::NAME), json!({"seed": seed, "derivation": name}));
+            }
+        }
+    }
+    run.add_counts(cases, cases, 0, 0, 0);
+    run.add_class(&format!("{}: seeds re-derived through field arithmetic (equal values)", H::NAME), cases);
+    run.add_class(&format!("{}: ... of which with a different internal representation", H::NAME), other_images);
+}
+
 pub fn run(run: &Arc<Run>) {
-    run.rule("explicit-state BFS over coin histories {new(4 seeds), reseed(2 digests), draw base/quadratic/cubic, draw_integers(k,2^m,nonce) for 7 (k,m,nonce) triples with k in {1,2,255} and m in {1,8,32}, check_leading_zeros(3 values)} for all six hashers; states keyed by the reference coin's (seed, counter); every transition executed on the real coin and on the reference coin and compared (a trace validated against the implementation); each state additionally probed for its next outputs, which must be a function of, and injective in, the key; nonce sensitivity: from 12 coin states per hasher every nonce of a boundary alphabet (multiples of the field modulus +-2, 2^b and 2^b-1 for every b, the extremes; about 150 values) must lead to pairwise different (27 integers, next draw)");
+    run.rule("explicit-state BFS over coin histories {new(4 seeds), reseed(2 digests), draw base/quadratic/cubic, draw_integers(k,2^m,nonce) for 7 (k,m,nonce) triples with k in {1,2,255} and m in {1,8,32}, check_leading_zeros(3 values)} for all six hashers; states keyed by the reference coin's (seed, counter); every transition executed on the real coin and on the reference coin and compared (a trace validated against the implementation); each state additionally probed for its next outputs, which must be a function of, and injective in, the key; representation independence: seeds re-derived through field arithmetic (equal as values, other internal images for the 62-bit field) give identical outputs; nonce sensitivity: from 12 coin states per hasher every nonce of a boundary alphabet (multiples of the field modulus +-2, 2^b and 2^b-1 for every b, the extremes; about 150 values) must lead to pairwise different (27 integers, next draw)");
     run.assume("hash_elements / merge / merge_with_int / Digest::as_bytes of each hasher are correct (C11)");
     run.assume("draw_integers precondition k < 2^m is respected (documented assertion)");
     let t = run.tier();
@@ -459,6 +520,12 @@ pub fn run(run: &Arc<Run>) {
     explore::<hashers::Rp64_256>(run, t.pick(3, 4));
     explore::<hashers::Rp62_248>(run, t.pick(3, 4));
     explore::<hashers::RpJive64_256>(run, t.pick(3, 4));
+    representation_independence::<hashers::Blake3_256<B64>>(run);
+    representation_independence::<hashers::Blake3_192<B62>>(run);
+    representation_independence::<hashers::Sha3_256<B128>>(run);
+    representation_independence::<hashers::Rp64_256>(run);
+    representation_independence::<hashers::Rp62_248>(run);
+    representation_independence::<hashers::RpJive64_256>(run);
     nonce_sensitivity::<hashers::Blake3_256<B64>>(run);
     nonce_sensitivity::<hashers::Blake3_192<B62>>(run);
     nonce_sensitivity::<hashers::Sha3_256<B128>>(run);
